@@ -87,6 +87,16 @@ def _array(shape, ps):
     return arr
 
 
+def _layout(arr, layout):
+    """The same logical array in another memory layout: 'F' Fortran-ordered copy, 'T' a transposed view of a
+    C-ordered array (non-contiguous).  Values, shape and indices are unchanged."""
+    if arr.ndim < 2 or layout in (None, 'C'):
+        return arr
+    if layout == 'F':
+        return np.asfortranarray(arr)
+    return np.ascontiguousarray(arr.T).T
+
+
 def _small_fraction(x, maxden=100000):
     fr = Fraction(float(x)).limit_denominator(maxden)
     return fr if float(fr) == float(x) else None
@@ -152,7 +162,7 @@ def observe(case):
             level_f = lvl.numerator / lvl.denominator
             data = []
             for ps in case['data']:
-                arr = _array(shape, ps)
+                arr = _layout(_array(shape, ps), case.get('layout'))
                 m = arr.size
                 before = arr.tobytes()
                 bonf = TestBonferroni.bonferroni_correction(arr, level_f / m)
@@ -169,7 +179,7 @@ def observe(case):
         if path == 'stub':
             lvl = Fraction(*case['level'])
             alpha_in = 2 * lvl.numerator / lvl.denominator
-            arrs = [_array(shape, ps) for ps in case['data']]
+            arrs = [_layout(_array(shape, ps), case.get('layout')) for ps in case['data']]
             test = _stub_classes()(shape, arrs)
             exact = case['data']
             binwise = False
@@ -183,7 +193,7 @@ def observe(case):
                 e = np.array(d['e'], dtype=float).reshape(shape)
                 if case.get('scalar'):
                     return Dataset(np.float64(v.ravel()[0]), np.float64(e.ravel()[0]), name=name)
-                return Dataset(v, e, name=name)
+                return Dataset(_layout(v, case.get('layout')), _layout(e, case.get('layout')), name=name)
             test = TestStudent(mk(case['ref'], 'ref'), *[mk(d, 'ds%d' % k) for k, d in enumerate(case['others'])],
                                name='student', alpha=alpha_in, ndf=case.get('ndf'))
             exact = None
@@ -488,6 +498,9 @@ def run_c06(ctx):
             for path in ('static', 'stub'):
                 case, order = _state_case(st, path)
                 obs = add(case, st=st, order=order, with_counts=(path == 'stub'))
+                if len(case['shape']) >= 2 and min(case['shape']) >= 2 or (len(case['shape']) >= 2 and n_states % 3 == 0):
+                    # the same array in another memory layout (Fortran order, transposed view): same expected outcome
+                    add(dict(case, layout='F' if n_states % 2 else 'T'), st=st, order=order, with_counts=(path == 'stub'))
                 if obs is not None and n_states % 1499 == 1 and path == 'stub':
                     ctx.sample(dict(case=case, observed=[[c['idx'], c['bonf'], c['hden'], c['hflag']]
                                                          for d in obs['data'] for c in d['cells']]))
@@ -519,6 +532,8 @@ def run_c06(ctx):
     n_random = ctx.pick(3000, 40000)
     for _ in range(n_random):
         case = _random_case(ctx.rng, cid)
+        if len(case['shape']) >= 2:
+            case['layout'] = ctx.rng.choice(['C', 'F', 'T'])
         obs = add(case)
         if obs is not None and len(ctx.cov['samples']) < 6 and case['path'] == 'student':
             ctx.sample(dict(case=case, observed=[[c['idx'], c['p'], c['bonf'], c['hden'], c['hflag']]
